@@ -327,7 +327,7 @@ Start thread: check `Unstarted` → publish `Starting` → [link]ₜₗ → `pre
 `post_start` → publish `Running` → loop; any number of other threads issuing casts, three-step
 drains, stops and kills; EVERY interleaving (`sched : List Tid`), every configuration `c`
 (linked / thread-local / supervisor accepting or not / `pre_start` ok or err / code before or
-after fix 18b7551). -/
+after fix ee38a9c). -/
 
 /-- While the actor lives nothing whose send returned Ok is lost: handled, then the messages still
 queued, are exactly the accepted ones, in order. -/
@@ -354,7 +354,7 @@ theorem start_race_never_already_started (c : EarlyStep.Cfg) (progs : List (List
     (EarlyStep.run c (EarlyStep.init progs) sched).sh.pc ≠ .failed .already :=
   (EarlyStep.inv_reach c progs sched).noAlready
 
-/-- **A drain never fails a start** (the code after fix 18b7551, finding F9): if no stop and no kill
+/-- **A drain never fails a start** (the code after fix ee38a9c, finding F9): if no stop and no kill
 was requested, `pre_start` succeeds and the supervisor accepts, then — whatever drains and casts
 were interleaved with the start — the start has not failed, and if the actor has ended it ended
 with "Drained" having handled every accepted message. -/
